@@ -23,7 +23,8 @@ RULE = ("WRITE: an instrumented statement generator logs PULL(i) before yielding
         "PULL before the first frame is requested; after stopping (frame iterator closed and dropped) the consumer's next() on ITS "
         "statement iterator must yield statement #PULL+1 - the unconsumed input is still there. The flat_stream_to_file entry points are run against an unbuffered output that "
         "logs WRITE events on the same clock: the bytes of every complete frame must have reached it before the next statement "
-        "is pulled. PARSE: valid delimited streams are delivered through a source that stalls "
+        "is pulled; for rdflib Graphs the same through the plugin entry point Graph.serialize(destination=<unbuffered stream>) with a Graph whose "
+        "iteration logs the PULLs (never more than 2*frame_size+2 statements pulled without a write in between). PARSE: valid delimited streams are delivered through a source that stalls "
         "forever after frame boundary j (every j): a raw non-seekable object, a BufferedReader around it (the documented "
         "'buffered binary stream', e.g. socket.makefile('rb')), a BufferedRWPair (socket.makefile('rwb')) and an "
         "HTTPResponse-shaped BufferedIOBase, and a real socketpair whose writer thread goes idle; flat and "
@@ -263,6 +264,50 @@ class LoggedRawOut(io.RawIOBase):
         return len(b)
 
 
+def check_plugin_sink(cfg: dict, stmts: list):
+    """rdflib's own entry point, Graph.serialize(destination=<unbuffered stream>, format='jelly'): the store's iteration is the
+    statement iterator.  A Graph whose triples() logs PULL(i) on the clock the output logs WRITEs on: frames must reach the
+    destination while the store is still being iterated - never more than 2*frame_size + 2 statements pulled without a write
+    in between (a store has no statement order of its own, so the bound is on the GAP, not on byte positions)."""
+    import rdflib
+    log: list = []
+
+    class LoggingGraph(rdflib.Graph):
+        def triples(self, pattern):
+            for i, t in enumerate(super().triples(pattern), 1):
+                if pattern == (None, None, None):
+                    log.append(("PULL", i))
+                yield t
+
+    g = LoggingGraph(bind_namespaces="none")
+    for st in stmts:
+        g.add(tuple(T.to_rdflib(t) for t in st[:3]))
+    n = len(g)
+    fs = cfg["frame_size"]
+    if n < 3 * fs + 4:
+        return []
+    out = LoggedRawOut(log)
+    try:
+        g.serialize(destination=out, format="jelly", options=pj.make_options(dict(cfg, physical=1, logical=1)))
+    except Exception as e:  # noqa: BLE001
+        return [{"clause": "serializer-raised", "summary": f"{type(e).__name__}: {e}"}]
+    pulls = [e for e in log if e[0] == "PULL"]
+    if len(pulls) < n:
+        return []                     # the store was not iterated through triples((None, None, None)): nothing observed
+    gap = 0
+    for ev in log:
+        if ev[0] == "WRITE":
+            gap = 0
+        else:
+            gap += 1
+            if gap > 2 * fs + 2:
+                return [{"clause": "frames-not-written-before-next-pull", "pull": ev[1], "plugin": True,
+                         "summary": f"rdflib Graph.serialize(destination=<unbuffered stream>, format='jelly'), frame_size={fs}: "
+                                    f"{gap} statements were pulled from the store in a row (up to statement {ev[1]} of {n}) without a "
+                                    f"single byte reaching the destination"}]
+    return []
+
+
 def check_file_sink(integ: str, cfg: dict, stmts: list):
     """flat_stream_to_file: every frame that is due must have REACHED THE OUTPUT before the next statement is pulled."""
     mod = gser if integ == "generic" else rser
@@ -344,6 +389,9 @@ def write_case(ctx, rng):
     ctx.observe(f"write:{integ}:phys{phys}:{'unspecified-logical' if logical == 0 else 'flat-logical'}")
     if phys != 3 and logical != 0 and not cfg.get("flow_instance"):
         fs_ws = check_file_sink(integ, cfg, stmts)
+        if integ == "rdflib" and phys == 1:
+            fs_ws = fs_ws + check_plugin_sink(cfg, stmts)
+            ctx.observe("plugin-sink-runs")
         ctx.observe("file-sink-runs")
         for w in fs_ws:
             w["file_sink"] = True
@@ -600,6 +648,8 @@ def replay(w: dict):
         cfg = w["cfg"]
         cfg["preset"] = tuple(cfg["preset"])
         stmts = list(T.from_json(w["stmts"]))
+        if w.get("plugin"):
+            return next(iter(check_plugin_sink(cfg, stmts)), None)
         if w.get("file_sink"):
             return next(iter(check_file_sink(w["integration"], cfg, stmts)), None)
         for x in check_write(w["integration"], cfg, stmts, w["entry"], w["ks"]):
